@@ -141,6 +141,13 @@ type txnEv struct {
 	Gen  int    `json:"gen"`
 }
 
+type txnTrEv struct {
+	D   string `json:"d"` // rx | tx | end | new
+	K   string `json:"k"`
+	Sbi int    `json:"sbi"`
+	Gen int    `json:"gen"`
+}
+
 type txnTrace struct {
 	T        string   `json:"t"` // "txntrace"
 	ID       int      `json:"id"`
@@ -149,11 +156,8 @@ type txnTrace struct {
 	NSb      int      `json:"nsb"`
 	CallSbi  []int    `json:"call_sbi"`
 	Outcomes []string `json:"outcomes"`
-	Events   []struct {
-		D   string `json:"d"`
-		K   string `json:"k"`
-		Sbi int    `json:"sbi"`
-	} `json:"events"`
+	CallGen  []int     `json:"call_gen"`
+	Events   []txnTrEv `json:"events"`
 	Delivered []int `json:"delivered"`
 	JitterMs  int   `json:"max_jitter_ms"`
 }
@@ -586,11 +590,14 @@ func runTxnScenario(sc txnScenario, r *rand.Rand) *txnLine {
 			endAt = time.Now()
 			endMu.Unlock()
 			dials := cut.Net.DialCount()
+			evMu.Lock()
+			evs = append(evs, txnEv{D: "end", Kind: "peer", Gen: 1, Sb: []int{}})
 			if r.Intn(2) == 0 {
 				tp.p.Reset()
 			} else {
 				tp.p.Close()
 			}
+			evMu.Unlock()
 			close(tp.stop)
 			time.Sleep(15 * time.Millisecond)
 			close(release)
@@ -600,11 +607,14 @@ func runTxnScenario(sc txnScenario, r *rand.Rand) *txnLine {
 			endMu.Lock()
 			endAt = time.Now()
 			endMu.Unlock()
+			evMu.Lock()
+			evs = append(evs, txnEv{D: "end", Kind: "peer", Gen: 1, Sb: []int{}})
 			if r.Intn(2) == 0 {
 				tp.p.Reset()
 			} else {
 				tp.p.Close()
 			}
+			evMu.Unlock()
 			close(tp.stop)
 		}
 		wg.Wait()
@@ -616,6 +626,9 @@ func runTxnScenario(sc txnScenario, r *rand.Rand) *txnLine {
 			break
 		}
 		gen2 = g2
+		evMu.Lock()
+		evs = append(evs, txnEv{D: "new", Kind: "selected", Gen: 2, Sb: []int{}})
+		evMu.Unlock()
 		for tok, si := range tp.seen {
 			if tp.scripts[tok] == "none" {
 				id := tp.ids[tok]
@@ -649,6 +662,9 @@ func runTxnScenario(sc txnScenario, r *rand.Rand) *txnLine {
 		endMu.Lock()
 		endAt = time.Now()
 		endMu.Unlock()
+		evMu.Lock()
+		evs = append(evs, txnEv{D: "end", Kind: "close", Gen: 1, Sb: []int{}})
+		evMu.Unlock()
 		_ = cut.Conn.Close()
 		closed = true
 		wg.Wait()
@@ -761,7 +777,7 @@ func runTxnScenario(sc txnScenario, r *rand.Rand) *txnLine {
 // txnMakeTrace abstracts one single-generation scenario to the vocabulary of impl/SendReply: system bytes become
 // small indices, the peer's log becomes rx / tx events, each call gets its outcome kind.
 func txnMakeTrace(sc txnScenario, line *txnLine, evs []txnEv) *txnTrace {
-	if line.Fault != "" || (sc.kind != "plain" && sc.kind != "cancel" && sc.kind != "lt" && sc.kind != "stall") {
+	if line.Fault != "" || sc.kind == "b2" {
 		return nil
 	}
 	idx := map[string]int{}
@@ -772,35 +788,33 @@ func txnMakeTrace(sc txnScenario, line *txnLine, evs []txnEv) *txnTrace {
 		}
 		return idx[k]
 	}
-	tr := &txnTrace{T: "txntrace", ID: sc.id, Kind: sc.kind, NCalls: len(line.Calls), CallSbi: []int{}, Outcomes: []string{}, Delivered: []int{}, JitterMs: line.JitterMs}
-	for i, c := range line.Calls {
-		if c.ID != i+1 || len(c.Sb) != 4 {
+	tr := &txnTrace{T: "txntrace", ID: sc.id, Kind: sc.kind, NCalls: len(line.Calls), CallSbi: []int{}, Outcomes: []string{}, CallGen: []int{}, Delivered: []int{}, JitterMs: line.JitterMs}
+	callTok := map[string]bool{}
+	for _, c := range line.Calls {
+		if len(c.Sb) != 4 || c.Outcome == "hung" {
 			return nil // a call the peer never saw: outside this trace vocabulary
 		}
 		tr.CallSbi = append(tr.CallSbi, sbi(c.Sb))
+		tr.CallGen = append(tr.CallGen, c.SeenGen)
 		o := c.Outcome
 		if strings.HasPrefix(o, "reject:") {
 			o = "reject"
 		}
 		tr.Outcomes = append(tr.Outcomes, o)
-	}
-	callTok := map[string]bool{}
-	for i := range line.Calls {
-		callTok["c"+strconv.Itoa(i+1)] = true
+		callTok["c"+strconv.Itoa(c.ID)] = true
 	}
 	for _, e := range evs {
 		if e.D == "rx" && !callTok[e.Tok] {
-			continue // the library's own messages (S9 notices, ...) are not calls of the model
+			continue // the library's own messages (S9 notices, fire-and-forget sends, ...) are not calls of the model
 		}
-		k := e.Kind
+		k, b := e.Kind, 0
 		if e.D == "rx" {
 			k = "primary"
 		}
-		tr.Events = append(tr.Events, struct {
-			D   string `json:"d"`
-			K   string `json:"k"`
-			Sbi int    `json:"sbi"`
-		}{e.D, k, sbi(e.Sb)})
+		if e.D == "rx" || e.D == "tx" {
+			b = sbi(e.Sb)
+		}
+		tr.Events = append(tr.Events, txnTrEv{e.D, k, b, e.Gen})
 	}
 	for _, d := range line.Delivered {
 		tr.Delivered = append(tr.Delivered, sbi(d.Sb))
